@@ -23,6 +23,38 @@ func (p *Program) runScan(sc *Scan) *UnitResult {
 	}
 	var offenders []string
 	found := false
+	if sc.Kind == "maprange" {
+		// every map-range loop of the package must be listed (with its disposition in the contract file)
+		for key, fn := range p.fnByKey {
+			if fn.Pkg == nil || fn.Pkg.Pkg.Path() != sc.Pkg {
+				continue
+			}
+			fns := append([]*ssa.Function{fn}, fn.AnonFuncs...)
+			for _, f := range fns {
+				for i := range mapRangeLoops(f) {
+					name := shortKey(key)
+					name = strings.TrimPrefix(name, fn.Pkg.Pkg.Name()+".")
+					if f != fn {
+						name += "$" + f.Name()
+					}
+					name = fmt.Sprintf("%s#%d", name, i+1)
+					found = true
+					if !allowed[name] {
+						offenders = append(offenders, name)
+					}
+				}
+			}
+		}
+		sort.Strings(offenders)
+		if len(offenders) == 0 {
+			o.Status = "unsat"
+			o.Output = fmt.Sprintf("all %d listed map-range loops of %s accounted for", len(sc.Allowed), sc.Pkg)
+		} else {
+			o.Status = "sat"
+			o.Output = "map-range loops without a recorded disposition: " + strings.Join(offenders, ", ")
+		}
+		return res
+	}
 	for key, fn := range p.fnByKey {
 		if fn.Pkg == nil || fn.Pkg.Pkg.Path() != sc.Pkg {
 			continue
